@@ -93,6 +93,9 @@ package server
 //@ func (*blobDownload).readPart
 //@   modifies nothing
 //@   ensures result.1 == nil ==> result.0 != nil && fresh(result.0)
+// (round 4) a part read back from disk belongs to this download (Name() of the part derives the record's
+// file name from it; a nil back pointer is a nil dereference in downloadChunk)
+//@   ensures result.1 == nil ==> result.0.blobDownload == b
 //@ extern func path/filepath.Glob
 //@   modifies nothing
 
@@ -103,6 +106,7 @@ package server
 //@   ensures result == nil ==> fresh(b.Parts[old(len(b.Parts))])
 //@   ensures result == nil ==> b.Parts[old(len(b.Parts))].Offset == offset && b.Parts[old(len(b.Parts))].Size == size && b.Parts[old(len(b.Parts))].N == old(len(b.Parts))
 //@   ensures result != nil ==> len(b.Parts) == old(len(b.Parts))
+//@   ensures result == nil ==> b.Parts[old(len(b.Parts))].blobDownload == b
 
 // Loops: 1 existing part files (resume)   2 fresh layout `for offset < b.Total`.
 // Fresh layout (ghost_head == 1: the HEAD request was made, i.e. no part file existed). All parts
@@ -161,6 +165,39 @@ package server
 //@   assume-at call GetBlobsPath #1 : ErrInvalidDigestFormat != nil   -- package-level errors.New value, assigned once at package init, never reassigned
 //@   assume-at after call LoadOrStore #1 : result.1 ==> tagis(result.0, "*blobDownload")     -- only *blobDownload values are ever stored in blobDownloadManager
 //@   assume-at call Wait #1 : ok ==> download.Digest == opts.digest       -- entries are stored under their own digest
+// (strengthening round 4) cacheHit tells PullModel "skip the SHA-256 check": it may be true only when
+// os.Stat found the blob file blobpath(digest) BEFORE this call started or joined any download - never
+// after LoadOrStore/Prepare/Run/Wait. A nil error without cache hit means the download was waited for
+// and Wait returned nil (the error of blobDownload.run reaches PullModel, nothing is swallowed).
+// A new entry in blobDownloadManager is either waited for (after `go download.Run`; govc has no site
+// selector for go statements, so the spawn itself is not pinned) or deleted again before the error is
+// returned (otherwise every later pull of this digest waits on a `done` channel nobody closes).
+// ghost_st    1 iff os.Stat returned a nil error        ghost_los  1 after LoadOrStore was called
+// ghost_new   1 iff LoadOrStore stored the new entry    ghost_wtc  1 after Wait was called
+// ghost_del   1 after blobDownloadManager.Delete        ghost_wt   1 iff Wait returned nil
+// ghost_prep  1 iff Prepare returned nil
+//@   ghost-at entry : ghost_st := 0
+//@   ghost-at entry : ghost_los := 0
+//@   ghost-at entry : ghost_new := 0
+//@   ghost-at entry : ghost_wtc := 0
+//@   ghost-at entry : ghost_del := 0
+//@   ghost-at entry : ghost_wt := 0
+//@   ghost-at entry : ghost_prep := 0
+//@   ghost-at after call os.Stat #1 : ghost_st := ite(result.1 == nil, 1, 0)
+//@   ghost-at after call LoadOrStore #1 : ghost_los := 1
+//@   ghost-at after call LoadOrStore #1 : ghost_new := ite(result.1, 0, 1)
+//@   ghost-at after call Prepare #1 : ghost_prep := ite(result == nil, 1, 0)
+//@   ghost-at after call Delete #1 : ghost_del := 1
+//@   ghost-at after call Wait #1 : ghost_wtc := 1
+//@   ghost-at after call Wait #1 : ghost_wt := ite(result == nil, 1, 0)
+//@   assume-at return #1 : ErrInvalidDigestFormat != nil   -- same fact as above (package-level errors.New value, never reassigned), at `return false, ErrInvalidDigestFormat`
+//@   assert-at call os.Stat #1 : arg0 == blobpath(opts.digest)
+//@   ensures result.0 ==> ghost_st == 1 && ghost_los == 0 && result.1 == nil
+//@   ensures result.1 == nil && !result.0 ==> ghost_wt == 1
+//@   ensures ghost_new == 1 ==> ghost_wtc == 1 || ghost_del == 1
+//@   assert-at call Prepare #1 : ghost_new == 1 && download.Name == blobpath(opts.digest) && download.Digest == opts.digest && download.Total == 0 && len(download.Parts) == 0
+//@   assert-at call Wait #1 : ghost_new == 1 ==> ghost_prep == 1
+//@   assert-at call Delete #1 : ghost_new == 1 && ghost_prep == 0
 
 //@ func (*blobDownload).acquire
 //@   modifies nothing
@@ -177,14 +214,22 @@ package server
 //@   requires len(b.Digest) >= 19
 //@   modifies nothing
 //@   loop 1 invariant b.Digest == old(b.Digest)
+// (round 4) when the download is done, Wait reports the error blobDownload.run left in b.err
+// (`case <-b.done: return b.err`): a failed download is never reported as nil to downloadBlob/PullModel.
+//@   assert-at return #2 : result == b.err
 
 //@ func (*blobDownload).Run
 //@   requires len(b.Digest) >= 19
+// (round 4) the result of run - nil only after the rename - is what waiters see in b.err
+//@   ghost-at after call run #1 : ghost_rr := ite(result == nil, 1, 0)
+//@   ensures b.err == nil ==> ghost_rr == 1
 
 // ==== C03 (B): order of effects in PullModel ====
 // wk() is an arbitrary fixed layer index (uninterpreted constant): what is proved about it holds
 // for every index. The ghost flags record what happened to layer wk() in this call.
 //@ spec func wk() int
+// wm(): an arbitrary fixed index into the pulled manifest's Layers (round 4, used at the end of PullModel's contract)
+//@ spec func wm() int
 
 //@ extern func os.WriteFile
 //@   modifies nothing
@@ -227,6 +272,9 @@ package server
 // the file hashed is the blob the digest names, and nil is returned only for equal digests
 //@   assert-at call os.Open #1 : arg0 == blobpath(digest)
 //@   assert-at return #4 : result == nil && digest == fileDigest
+// (round 4) the reader that is hashed is the opened blob file itself (dynamic type *os.File): not a
+// length-limited or otherwise wrapped view of it
+//@   assert-at call GetSHA256Digest #1 : tagis(arg0, "*os.File")
 
 // Loops: 1 old manifest's layers (deleteMap)   2 download   3 verify.
 // (inside a range loop body the index of the current element is rangeindex + 1)
@@ -300,6 +348,36 @@ package server
 //@   assume-at after call errors.Is : result <==> errwraps(arg0, arg1)     -- library fact: errwraps is errors.Is
 //@   assert-at return #5 : ghost_vmm == 1 ==> ghost_rm == 1
 //@   assert-at call os.Remove #1 : ghost_vmm == 1 && arg0 == blobpath(layer.Digest)
+// (round 4) "EVERY layer named by the pulled manifest": the list that is downloaded and verified is
+// exactly the pulled manifest's layers followed by its config (when it has one) - no layer of the
+// manifest that gets stored is left out of the two loops; each downloadBlob / verifyBlob call concerns
+// the digest of the layer the loop is at (the ghost flags above are indexed by the loop position).
+// (stated at the len builtin that starts loop 2, i.e. right after the list was built, for an arbitrary
+// fixed index wm() of the manifest's layer list - quantifier-free, a forall here makes every later
+// satisfiability query of PullModel time out)
+//@   assert-at call len #2 : len(layers) == len(manifest.Layers) + ite(manifest.Config.Digest != "", 1, 0)
+//@   assert-at call len #2 : 0 <= wm() && wm() < len(manifest.Layers) ==> layers[wm()].Digest == manifest.Layers[wm()].Digest
+//@   assert-at call len #2 : manifest.Config.Digest != "" ==> layers[len(manifest.Layers)].Digest == manifest.Config.Digest
+//@   assert-at call downloadBlob #1 : arg1.digest == layers[rangeindex + 1].Digest
+//@   assert-at call verifyBlob #1 : arg0 == layers[rangeindex + 1].Digest
+// success is reported only after os.WriteFile of the manifest returned nil; a failed or interrupted pull
+// leaves the model's previous manifest and everything it names alone: the only blob a pull removes
+// directly is one it did NOT take as a cache hit (after a recognised mismatch), there is no other
+// os.Remove / os.RemoveAll site, and layers of the replaced manifest are dropped only through
+// deleteUnusedLayers (which re-scans all manifests) after the new manifest is on disk (clauses
+// requested by the C04 audit: PullModel's contract is shared with C04/C12).
+// ghost_mw  1 iff os.WriteFile(manifest) returned nil
+//@   ghost-at entry : ghost_mw := 0
+//@   ghost-at after call WriteFile #1 : ghost_mw := ite(result == nil, 1, 0)
+//@   assert-at return #10 : ghost_mw == 1
+//@   assert-at call os.Remove : ghost_vmm == 1
+//@   assert-at call verifyBlob #1 : !(has(skipVerify, layer.Digest) && skipVerify[layer.Digest])
+//@   assert-at call os.Remove : !(has(skipVerify, layer.Digest) && skipVerify[layer.Digest])
+//@   assert-at call os.RemoveAll : false
+//@   assert-at call deleteUnusedLayers #1 : ghost_mw == 1 && arg0 == deleteMap
+// the same for EVERY return (numbered return sites silently stop matching when a return is removed)
+//@   assume-at return #1 : errInsecureProtocol != nil     -- package-level errors.New value, assigned once at package init, never reassigned
+//@   ensures result == nil ==> ghost_mw == 1
 
 // ==== C03 (B): blobDownload.run - the -partial file gets its final name only after every part
 // ==== goroutine returned nil and the file was closed ====
@@ -326,16 +404,71 @@ package server
 
 // downloadChunk runs the transfer in two goroutines; besides atomic counters, the data file and the
 // part record on disk it touches part.lastUpdated (under its mutex).
-//@ extern func (*blobDownload).downloadChunk
+//@ func (*blobDownload).downloadChunk
 //@   modifies part.lastUpdated
+// (round 4; was `extern`: the body is now verified against the same frame) the attempt's result is the
+// result of g.Wait() on the group that runs the transfer goroutine ($1) and the stall watchdog ($2):
+// nil only if Wait returned nil, i.e. (errgroup) both returned nil.
+//@   ghost-at entry : ghost_gw := 0
+//@   ghost-at entry : ghost_ngo := 0
+//@   ghost-at after call Go : ghost_ngo := ghost_ngo + 1
+//@   ghost-at after call Wait #1 : ghost_gw := ite(result == nil, 1, 0)
+//@   assert-at call Wait #1 : ghost_ngo == 2
+//@   ensures result == nil ==> ghost_gw == 1
+// (round 4) downloadChunk$1 is the transfer goroutine of one attempt: "per-part progress persisted only
+// after the bytes were written". io.CopyN(w, ..., n) is asked for exactly the missing bytes of THIS part
+// (n = Size - persisted progress) and writes them through the attempt's writer w; the part's own counter
+// is advanced only after CopyN returned and by exactly the byte count CopyN reports as written; the part
+// record is written to disk only after that; and nil is returned only when CopyN returned a nil error
+// (by io.CopyN's contract: all n bytes were written) and the record was stored. Truncated bodies
+// (io.ErrUnexpectedEOF) and cancellation keep the bytes written so far but are returned as errors.
+// ghost_ld   result of part.Completed.Load()             ghost_cpc  1 after io.CopyN returned
+// ghost_cp   1 iff io.CopyN returned a nil error        ghost_n    bytes io.CopyN reports written
+// ghost_add  1 after part.Completed.Add(n)              ghost_wp   1 iff writePart returned nil
+//@ func (*blobDownload).downloadChunk$1
+//@   ghost-at entry : ghost_ld := 0
+//@   ghost-at entry : ghost_cpc := 0
+//@   ghost-at entry : ghost_cp := 0
+//@   ghost-at entry : ghost_n := 0
+//@   ghost-at entry : ghost_add := 0
+//@   ghost-at entry : ghost_wp := 0
+//@   ghost-at after call Load #1 : ghost_ld := result
+//@   ghost-at after call io.CopyN #1 : ghost_cpc := 1
+//@   ghost-at after call io.CopyN #1 : ghost_cp := ite(result.1 == nil, 1, 0)
+//@   ghost-at after call io.CopyN #1 : ghost_n := result.0
+//@   ghost-at after call Add #2 : ghost_add := 1
+//@   ghost-at after call writePart #1 : ghost_wp := ite(result == nil, 1, 0)
+//@   assert-at call Load #1 : arg0 == &part.Completed
+//@   assert-at call io.CopyN #1 : arg0 == w
+//@   assert-at call io.CopyN #1 : 0 <= ghost_ld && ghost_ld <= (1 << 61) && 0 <= part.Size && part.Size <= (1 << 61) ==> arg2 == part.Size - ghost_ld
+//@   assert-at call Add #2 : ghost_cpc == 1 && arg0 == &part.Completed && arg1 == ghost_n
+//@   assert-at call writePart #1 : ghost_add == 1 && arg2 == part
+//@   ensures result == nil ==> ghost_cp == 1 && ghost_add == 1 && ghost_wp == 1
+// the request carries a Range header built from the part's current start/stop (a request without it makes
+// the CDN send the blob from byte 0 into every part)
+//@   ghost-at entry : ghost_rng := 0
+//@   ghost-at after call Set #1 : ghost_rng := 1
+//@   assert-at call Set #1 : arg1 == "Range"
+//@   assert-at call fmt.Sprintf #1 : arg0 == "bytes=%d-%d" && len(arg1) == 2
+//@   assert-at call Do #1 : ghost_rng == 1
+// the byte count handed to io.CopyN was computed from a Load of the part's progress in this attempt
+// (without this flag a CopyN of the whole part.Size passes the clause above with ghost_ld still 0)
+//@   ghost-at entry : ghost_ldc := 0
+//@   ghost-at after call Load #1 : ghost_ldc := 1
+//@   assert-at call io.CopyN #1 : ghost_ldc == 1
 // downloadChunk$2 (stall watchdog): same requirement on the immutable digest.
 //@ func (*blobDownload).downloadChunk$2
 //@   requires len(b.Digest) >= 19
 //@   loop 1 invariant b == old(b) && b.Digest == old(b.Digest)
 //@ func (*blobDownloadPart).StartsAt
 //@   modifies nothing
+// (round 4) start of the missing range = Offset + persisted progress (mathematical sum whenever it does not wrap)
+//@   ghost-at after call Load #1 : ghost_pl := result
+//@   assert-at call Load #1 : arg0 == &p.Completed
+//@   ensures 0 <= p.Offset && p.Offset <= (1 << 61) && 0 <= ghost_pl && ghost_pl <= (1 << 61) ==> result == p.Offset + ghost_pl
 //@ func (*blobDownloadPart).StopsAt
 //@   modifies nothing
+//@   ensures 0 <= p.Offset && p.Offset <= (1 << 61) && 0 <= p.Size && p.Size <= (1 << 61) ==> result == p.Offset + p.Size
 // run$2 is the body of one part goroutine. b.Digest is written only by the composite literal in
 // downloadBlob (before the download is shared), so the requirement is what run() itself requires.
 //@ func (*blobDownload).run$2
@@ -348,6 +481,14 @@ package server
 //@   ghost-at entry : ghost_dl := 0
 //@   ghost-at after call downloadChunk : ghost_dl := ite(result == nil, 1, 0)
 //@   ensures result == nil ==> ghost_dl == 1
+// (round 4) every attempt writes through an OffsetWriter on the -partial file positioned at the
+// part's CURRENT start (Offset + persisted progress, as StartsAt returned it for this attempt), and
+// hands exactly that writer and that part to downloadChunk.
+//@   ghost-at entry : ghost_sa := 0
+//@   ghost-at after call StartsAt #1 : ghost_sa := result
+//@   assert-at call StartsAt #1 : arg0 == part
+//@   assert-at call io.NewOffsetWriter #1 : tagis(arg0, "*os.File") && arg1 == ghost_sa
+//@   assert-at call downloadChunk #1 : arg0 == b && tagis(arg3, "*io.OffsetWriter") && arg4 == part && w.ghost_base == ghost_sa
 
 // Loops: 1 start part goroutines   2 remove part records.
 //@ func (*blobDownload).run
@@ -357,3 +498,62 @@ package server
 //@   ghost-at after call Wait #1 : ghost_waited := ite(result == nil, 1, 0)
 //@   ghost-at after call Close : ghost_closed := ite(result == nil, 1, 0)
 //@   assert-at call os.Rename #1 : ghost_waited == 1 && ghost_closed == 1
+// (round 4) "every part is complete": loop 1 starts a goroutine for EVERY part whose persisted progress
+// differs from its size - a part is skipped only when Completed.Load() == Size for that very part.
+// ghost_peq  1 iff the Load of the part visited last returned exactly that part's Size
+// ghost_pgo  1 iff g.Go was called for the part visited last
+// The file renamed is the -partial file that was opened and written, the target is the blob's final
+// name, and run's entry in blobDownloadManager is deleted on every return (a stuck entry would make
+// every later pull of the digest return this attempt's result for ever).
+//@   ghost-at entry : ghost_peq := 0
+//@   ghost-at entry : ghost_pgo := 0
+//@   ghost-at entry : ghost_bdel := 0
+//@   ghost-at after call Load #1 : ghost_peq := ite(result == b.Parts[rangeindex + 1].Size, 1, 0)
+//@   ghost-at after call Load #1 : ghost_pgo := 0
+//@   ghost-at after call Go #1 : ghost_pgo := 1
+//@   ghost-at after call Delete : ghost_bdel := 1
+//@   assert-at call Load #1 : arg0 == &b.Parts[rangeindex + 1].Completed && part == b.Parts[rangeindex + 1]
+//@   loop 1 invariant rangeindex >= 0 ==> ghost_peq == 1 || ghost_pgo == 1
+//@   loop 1 invariant b == old(b)
+//@   assert-at call os.OpenFile #1 : arg0 == b.Name + "-partial"
+//@   assert-at call os.Rename #1 : arg0 == file.Name() && arg1 == b.Name
+//@   ensures ghost_bdel == 1
+// nil only after the rename itself succeeded
+//@   ghost-at entry : ghost_ren := 0
+//@   ghost-at after call os.Rename #1 : ghost_ren := ite(result == nil, 1, 0)
+//@   ensures result == nil ==> ghost_ren == 1
+
+// (round 4) "the stored manifest is the one the registry served": pullModelManifest returns a manifest
+// only after makeRequestWithRetry returned a response without error (status < 400 by its contract) and
+// json Decode of that response's body returned nil - a body that is truncated or not JSON is an error,
+// never a partly filled or empty manifest.
+// ghost_rq  1 iff makeRequestWithRetry returned a nil error     ghost_dec  1 iff Decode returned nil
+//@ func pullModelManifest
+//@   ghost-at entry : ghost_rq := 0
+//@   ghost-at entry : ghost_dec := 0
+//@   ghost-at after call makeRequestWithRetry #1 : ghost_rq := ite(result.1 == nil, 1, 0)
+//@   ghost-at after call Decode #1 : ghost_dec := ite(result == nil, 1, 0)
+//@   assert-at call Decode #1 : ghost_rq == 1
+//@   ensures result.1 == nil ==> result.0 != nil && ghost_rq == 1 && ghost_dec == 1
+
+// (round 4) redirect policy of the direct-URL lookup: a redirect is followed (nil) only while at most 10
+// requests were made and only to the host of the registry request; everything else stops the client.
+//@ func (*blobDownload).run$1$1
+//@   modifies nothing
+//@   ghost-at entry : ghost_hn := 0
+//@   ghost-at after call Hostname #1 : ghost_h1 := result
+//@   ghost-at after call Hostname #2 : ghost_h2 := result
+//@   ghost-at after call Hostname #2 : ghost_hn := 1
+//@   assert-at call Hostname #1 : arg0 == req.URL
+//@   assert-at call Hostname #2 : arg0 == requestURL
+//@   assume-at return #1 : errMaxRedirectsExceeded != nil     -- package-level errors.New value, assigned once at package init, never reassigned
+//@   assume-at return #3 : result != nil     -- `return http.ErrUseLastResponse`: the library sentinel is non-nil
+//@   ensures result == nil ==> len(via) <= 10 && ghost_hn == 1 && ghost_h1 == ghost_h2
+
+// (round 4) resume: the progress a part record read from disk claims is exactly the record's Completed
+// field (UnmarshalJSON is what json Decode in readPart calls).
+//@ func (*blobDownloadPart).UnmarshalJSON
+//@   ghost-at entry : ghost_st := 0
+//@   ghost-at after call Store #1 : ghost_st := 1
+//@   assert-at call Store #1 : arg0 == &p.Completed && arg1 == j.Completed && p.N == j.N && p.Offset == j.Offset && p.Size == j.Size
+//@   ensures result == nil ==> ghost_st == 1
